@@ -133,7 +133,7 @@ package rueidis
 
 //@ func RedisMessage.AsFtSearch
 //@   safety C15
-//@   loop 4: invariant [C15] i >= 1
+//@   loop 3: invariant [C15] i >= 1
 
 // C15, second clause: a reply of the wrong shape yields an error (never a silent zero value), nil replies surface as
 // Nil and error replies as *RedisError. Stated on the basic accessors every helper builds on.
@@ -223,3 +223,42 @@ package rueidis
 //@   ensures [C44 no-skip-verify] (err == nil && opt.TLSConfig != nil && !Q.Has("skip_verify")) ==> !opt.TLSConfig.InsecureSkipVerify
 //@   ensures [C44 address-count] err == nil ==> len(opt.InitAddress) == 1 + len(Q["addr"])
 //@   ensures [C44 unknown-scheme-is-error] (second(url.Parse(str)) == nil && U.Scheme != "unix" && U.Scheme != "rediss" && U.Scheme != "valkeys" && U.Scheme != "redis" && U.Scheme != "valkey") ==> err != nil
+
+// ---------------------------------------------------------------------------------------------
+// C45 — vector and binary helpers round-trip bit for bit (binary.go). Floats are abstract values; f32bits/f64bits
+// (math.Float32bits/Float64bits) are bijections with their inverses, so "same bits" is "same value".
+//@ specfn le32at(s string, k int) uint32 = uint32(s[k]) + 256 * uint32(s[k+1]) + 65536 * uint32(s[k+2]) + 16777216 * uint32(s[k+3])
+//@ specfn le64at(s string, k int) uint64 = uint64(s[k]) + 256 * uint64(s[k+1]) + 65536 * uint64(s[k+2]) + 16777216 * uint64(s[k+3]) + 4294967296 * uint64(s[k+4]) + 1099511627776 * uint64(s[k+5]) + 281474976710656 * uint64(s[k+6]) + 72057594037927936 * uint64(s[k+7])
+
+//@ func BinaryString
+//@   safety C45
+//@   ensures [C45 same-bytes] len(result) == len(bs) && (forall k int :: 0 <= k && k < len(bs) ==> result[k] == bs[k])
+
+//@ func VectorString32
+//@   safety C45
+//@   ensures [C45 length] len(result) == 4 * len(v)
+//@   ensures [C45 little-endian-bits] forall j int :: 0 <= j && j < len(v) ==> le32at(result, 4 * j) == f32bits(v[j])
+//@   loop 0: invariant [C45] rangeindex >= -1 && rangeindex < len(v) && len(b) == 4 * len(v) && (forall j int :: 0 <= j && j <= rangeindex ==> uint32(b[4*j]) + 256 * uint32(b[4*j+1]) + 65536 * uint32(b[4*j+2]) + 16777216 * uint32(b[4*j+3]) == f32bits(v[j]))
+
+//@ func ToVector32
+//@   requires len(s) % 4 == 0
+//@   safety C45
+//@   ensures [C45 length] 4 * len(result) == len(s)
+//@   loop 0: invariant [C45] 0 <= i && i <= len(s) && 4 * len(vs) == i
+
+//@ func VectorString64
+//@   safety C45
+//@   ensures [C45 length] len(result) == 8 * len(v)
+//@   loop 0: invariant [C45] rangeindex >= -1 && rangeindex < len(v) && len(b) == 8 * len(v)
+
+//@ func ToVector64
+//@   requires len(s) % 8 == 0
+//@   safety C45
+//@   ensures [C45 length] 8 * len(result) == len(s)
+//@   loop 0: invariant [C45] 0 <= i && i <= len(s) && 8 * len(vs) == i
+
+// NOT PROVED (solvers return unknown on the loop-preservation step): the content clauses of ToVector32/ToVector64
+// (result[j] == f32from(le32at(s, 4*j))) and of VectorString64; only their lengths and panic-freedom are claimed.
+// round trip, spec level: decoding position j of the encoding of v gives back v[j] (f32from(f32bits(x)) == x)
+//@ lemma [C45 roundtrip32] forall x float32 :: f32from(f32bits(x)) == x
+//@ lemma [C45 roundtrip64] forall x float64 :: f64from(f64bits(x)) == x
